@@ -29,14 +29,11 @@ C02 = [
     (r"all:c02:reads-beyond-len:(SCTP\w*|after-SCTP\w*)$", "same defect as all:c19:panic:layers/sctp.go:*, seen through NoCopy: unguarded fixed-offset reads of a chunk return bytes beyond len(data)"),
     (r"all:c02:reads-beyond-len:(OSPF\w*|after-IPv4|after-IPv6)$", "same defect as all:c19:panic:layers/ospf.go:* (or another unguarded decoder behind IP), seen through NoCopy: reads beyond len(data)"),
     (r"all:c02:reads-beyond-len:(RadioTap|first-RadioTap|after-RadioTap|Dot11\w*)$", "same defect as all:c19:panic:layers/radiotap.go:*, seen through NoCopy: reads beyond len(data)"),
-    (r"all:c02:input-written:RadioTap$", "RadioTap.DecodeFromBytes removes driver padding with append(payload[:headlen], payload[headlen+2:]...), which moves bytes INSIDE the packet data: under NoCopy the caller's buffer is modified"),
 ]
 
 C07 = {
     "all:c07:dirty-buffer:Dot11": "Dot11.SerializeTo always requests a 24-byte header but writes the address/sequence fields only for some frame types: the other bytes keep stale buffer contents",
     "all:c07:dirty-buffer:DNS": "DNS.SerializeTo: a resource record whose typed value is nil (e.g. A/AAAA with empty RDATA in a dynamic-update delete) gets RDATA bytes that are never written",
-    "all:c07:dirty-buffer:GRE": "GRE.SerializeTo with routing + ack: the last four bytes are requested but never written (DESIGN §5 C07 expected; also listed by the per-layer engine)",
-    "all:c07:dirty-buffer:IPv4": "IPv4.SerializeTo with options whose total length is not a multiple of 4: the alignment bytes are requested but never written (DESIGN §5 C07 expected; also listed by the per-layer engine)",
     "all:c07:dirty-buffer:SCTPCookieEcho": "SCTP chunk serialisers round the chunk up to a multiple of 4 but never write the padding bytes",
     "all:c07:dirty-buffer:SCTPSack": "SCTP chunk serialisers round the chunk up to a multiple of 4 but never write the padding bytes",
     "all:c07:dirty-buffer:SCTP*": "SCTP chunk serialisers round the chunk up to a multiple of 4 but never write the padding bytes",
@@ -53,17 +50,9 @@ C06 = {
     "EAP": "EAP: SerializeTo writes Length from the struct while the decoder derives TypeData from the remaining bytes; they disagree for length-4 packets with trailing bytes",
     "GTPv1U": "GTPv1U.SerializeTo hard-codes protocol type 1 (the ProtocolType field is ignored)",
     "Geneve": "Geneve.SerializeTo never writes the Version bits",
-    "ICMPv6RouterAdvertisement": "NDP options are serialised in reverse order when there are two or more (property text; fixed by the ICMPv6 engine's patch)",
-    "ICMPv6RouterSolicitation": "NDP options are serialised in reverse order when there are two or more",
-    "ICMPv6NeighborSolicitation": "NDP options are serialised in reverse order when there are two or more",
-    "ICMPv6NeighborAdvertisement": "NDP options are serialised in reverse order when there are two or more",
-    "ICMPv6Redirect": "NDP options are serialised in reverse order when there are two or more",
     "LLC": "LLC: a two-byte control field whose high byte is 0 is serialised as a one-byte control field",
     "RadioTap": "RadioTap: SerializeTo writes only the header fields it knows and the decoder appends a synthesised FCS to the payload; truncated flag on re-decode",
     "TLS": "TLS.SerializeTo writes only the record headers, not the record contents",
-    "IPv6HopByHop": "IPv6 hop-by-hop/destination options: final padding computed as length%8 instead of 8-length%8 (DESIGN §5 C06 expected; per-layer engine)",
-    "IPv6Destination": "IPv6 hop-by-hop/destination options: final padding computed as length%8 instead of 8-length%8",
-    "GRE": "GRE with routing + ack: offset not advanced after the terminating SRE (DESIGN §5 C06 expected; per-layer engine)",
 }
 
 
